@@ -249,7 +249,7 @@ func c15Stored(e *Env, c *C15Case, base []byte) {
 	}
 	now := Now()
 	var yields int64
-	wt.VerifYield = func(site int) {
+	hook := func(site int) {
 		yields++
 		if site < len(e.Cover) {
 			e.Cover[site]++
@@ -258,8 +258,9 @@ func c15Stored(e *Env, c *C15Case, base []byte) {
 			panic("wsim: statement budget exhausted")
 		}
 	}
+	wt.VerifYield = hook
 	p := filepath.Join(e.Dir, "dst", "damaged.wsp")
-	for _, d := range list {
+	for di, d := range list {
 		dmg := applyDamage(base, d)
 		g := &c15Guard{e: e, input: int64(len(dmg)), yields: &yields, damage: d, hangCap: 3_000_000}
 		var db *wt.Whisper
@@ -332,6 +333,44 @@ func c15Stored(e *Env, c *C15Case, base []byte) {
 		db.Close()
 		if g.failed {
 			break
+		}
+		// the commands on the damaged file (a share of the damages; always in a replay)
+		if c.Mode == "stored" && (di%8 == 0 || c.Only != nil) {
+			os.WriteFile(p, dmg, 0o644) // undo what the updates above wrote
+			for _, kind := range []string{"view", "view-raw", "copy", "diff"} {
+				cm := Cmd{Kind: kind, SwapBases: true, Src: "damaged.wsp", Archive: -1, Create: c.Layout, TextOut: "none"}
+				if kind == "copy" || kind == "diff" {
+					cm.Dest = "copy-of-damaged.wsp"
+				}
+				r := newCliRunner(e, c.SchedSeed, 0, false)
+				var m0, m1 runtime.MemStats
+				runtime.ReadMemStats(&m0)
+				res := r.run1(cm, "c15")
+				runtime.ReadMemStats(&m1)
+				r.close()
+				e.OutSched = nil
+				wt.VerifYield = hook
+				if res.aborted {
+					g.failed = true
+					e.Violate("C15.no-hang", "file damaged before Open, %s: the %s command did not terminate", d, kind)
+					break
+				}
+				if len(res.panics) > 0 {
+					g.failed = true
+					e.Violate("C15.no-panic", "file damaged before Open, %s: the %s command panicked: %s", d, kind, trunc(res.panics[0], 200))
+					break
+				}
+				if alloc, bound := int64(m1.TotalAlloc-m0.TotalAlloc), int64(1<<20)+64*2*int64(len(dmg)); alloc > bound {
+					g.failed = true
+					e.Violate("C15.bounded-allocation", "file damaged before Open, %s: the %s command allocated %d bytes for a file of %d bytes (bound %d)", d, kind, alloc, len(dmg), bound)
+					break
+				}
+				e.Note("command-on-damaged-file/" + kind)
+			}
+			os.Remove(filepath.Join(e.Dir, "src", "copy-of-damaged.wsp"))
+			if g.failed {
+				break
+			}
 		}
 	}
 	if e.Failed() && c.Only == nil {
